@@ -742,6 +742,11 @@ func wiredLiveCampaign(o *hlib.Opts, r *hlib.Result, m *hlib.Model) {
 					key := l.name + " " + k
 					allServed := true
 					for qi, q := range liveQueries(rng) {
+						if overBudget(o, r) {
+							allServed = false
+
+							break
+						}
 						req := unpackOrNil(q)
 						w.h.set(outcome{kind: "wrote", n: 2})
 						ob := l.exchange(k, q, true)
@@ -948,6 +953,11 @@ func shutdownRace(r *hlib.Result, w *wiredSvc, cfg string) (serr error) {
 			r.Count("shutdown-race:" + g.k + ":answered")
 		} else {
 			r.Count("shutdown-race:" + g.k + ":lost")
+			if (g.k == "tcp" || g.k == "dot") && inFlight == int64(n) {
+				// A TCP/DoT connection is closed only after its workers are done
+				// (conn_answered_before_close): Shutdown ends the read loop, not the queries.
+				r.Violate("answer-lost-wired-shutdown-"+g.k, fmt.Sprintf("%s (production wiring): the query was inside the handler when Shutdown was called and got no answer (%s)", g.k, g.ob.err), ci)
+			}
 		}
 	}
 	r.Case(fmt.Sprintf("shutdown-race %d", n), true)
